@@ -7,6 +7,7 @@
     read_varint / encode_varint / read_varstr / encode_varstr
   and `io.BytesIO.read(n)` (short read at end of stream, never an error).
 -/
+import Buidl.Gen.Helper
 namespace Buidl
 
 abbrev Bytes := List UInt8
@@ -41,12 +42,14 @@ def natToBE (n w : Nat) : Option Bytes :=
 /-- `BytesIO.read(n)`: returns what is there (possibly fewer than `n` bytes) and the rest -/
 def sread (n : Nat) (s : Bytes) : Bytes × Bytes := (s.take n, s.drop n)
 
-/-- helper.encode_varint; `none` = RuntimeError("integer too large") -/
+/-- helper.encode_varint; `none` = RuntimeError("integer too large") (or OverflowError from
+    `int_to_little_endian` should a threshold exceed its width).  Thresholds, prefix bytes
+    and widths are re-extracted from the source (Buidl.Gen.Helper). -/
 def encodeVarint (i : Nat) : Option Bytes :=
-  if i < 0xFD then some [UInt8.ofNat i]
-  else if i < 0x10000 then some (0xFD :: natToLE' 2 i)
-  else if i < 0x100000000 then some (0xFE :: natToLE' 4 i)
-  else if i < 0x10000000000000000 then some (0xFF :: natToLE' 8 i)
+  if i < Gen.varintEncT0 then (natToLE i 1)
+  else if i < Gen.varintEncT1 then (natToLE i Gen.varintEncW0).map (UInt8.ofNat Gen.varintEncP0 :: ·)
+  else if i < Gen.varintEncT2 then (natToLE i Gen.varintEncW1).map (UInt8.ofNat Gen.varintEncP1 :: ·)
+  else if i < Gen.varintEncT3 then (natToLE i Gen.varintEncW2).map (UInt8.ofNat Gen.varintEncP2 :: ·)
   else none
 
 /-- helper.read_varint on a stream; `none` = IOError("stream has no bytes").
@@ -55,20 +58,21 @@ def readVarint (s : Bytes) : Option (Nat × Bytes) :=
   match s with
   | [] => none
   | b :: r =>
-    if b = 0xFD then some (leToNat (r.take 2), r.drop 2)
-    else if b = 0xFE then some (leToNat (r.take 4), r.drop 4)
-    else if b = 0xFF then some (leToNat (r.take 8), r.drop 8)
+    if b.toNat = Gen.varintDecM0 then some (leToNat (r.take Gen.varintDecW0), r.drop Gen.varintDecW0)
+    else if b.toNat = Gen.varintDecM1 then some (leToNat (r.take Gen.varintDecW1), r.drop Gen.varintDecW1)
+    else if b.toNat = Gen.varintDecM2 then some (leToNat (r.take Gen.varintDecW2), r.drop Gen.varintDecW2)
     else some (b.toNat, r)
 
 /-- helper.encode_varstr -/
 def encodeVarstr (b : Bytes) : Option Bytes :=
   (encodeVarint b.length).map (· ++ b)
 
-/-- helper.read_varstr (short read of the body is not an error in the code) -/
+/-- helper.read_varstr (short read of the body is not an error in the code; a length that
+    does not fit a signed 64-bit index makes `BytesIO.read` raise OverflowError) -/
 def readVarstr (s : Bytes) : Option (Bytes × Bytes) :=
   match readVarint s with
   | none => none
-  | some (n, r) => some (r.take n, r.drop n)
+  | some (n, r) => if n < 2 ^ 63 then some (r.take n, r.drop n) else none
 
 /-- bytes.strip(b"\x00") -/
 def stripZeros (b : Bytes) : Bytes :=
